@@ -209,7 +209,7 @@ def compare(a, b, what, plan):
 C_OPS = ['srv event', 'srv event+id', 'srv binary event+id', 'srv event nobody+id', 'srv ack known', 'srv ack unknown',
          'srv ack duplicate', 'srv disconnect /', 'srv disconnect /a', 'srv connect_error /a', 'emit', 'emit cb',
          'emit raising-cb', 'emit unconnected', 'send', 'disconnect()', 'loss', 'server close', 'malformed', 'stray binary',
-         'srv half binary', 'reconnect']
+         'srv half binary', 'reconnect', 'connect refused by HTTP status', 'connect unreachable']
 
 
 def run_client(asyncio_, plan):
@@ -240,6 +240,14 @@ def run_client(asyncio_, plan):
         return {'token': len(calls_to_auth)}
     w.connect(['/', '/a'], auth=auth)
     ids = {}
+
+    class World:
+        outcome = None
+
+        def connect_outcome(self, c):
+            return self.outcome
+    world = World()
+    w.eio.world = world
 
     def api(tag, thunk):
         try:
@@ -310,6 +318,15 @@ def run_client(asyncio_, plan):
                 api('connect', lambda: w.c.connect('http://h', namespaces=['/', '/a'], wait=False))
                 for ns in ('/', '/a'):
                     w.accept(ns)
+        elif name in ('connect refused by HTTP status', 'connect unreachable'):
+            if w.eio.state == 'disconnected':
+                # engine.io raises ConnectionError(message) when the server cannot be reached and
+                # ConnectionError(message, body) when the handshake is answered with an error status (client.py:163-175)
+                import engineio.exceptions
+                args = ('Connection error',) if name == 'connect unreachable' else ('Unexpected status code 401', {'message': 'denied'})
+                world.outcome = engineio.exceptions.ConnectionError(*args)
+                api('connect', lambda: w.c.connect('http://h', namespaces=['/', '/a'], wait=False))
+                world.outcome = None
     w.finish()
     tr.append(('contained', [exc_name(c[1]) for c in w.eio.contained]))
     tr.append(('out', [worlds.pk(p) if not isinstance(p, tuple) else p for p in
